@@ -24,7 +24,7 @@ type KnownFinding struct {
 
 func loadKnownFindings(verif string) []KnownFinding {
 	var out []KnownFinding
-	f, err := os.Open(filepath.Join(verif, "known_findings.jsonl"))
+	f, err := os.Open(filepath.Join(verif, "KNOWN_FINDINGS"))
 	if err != nil {
 		return nil
 	}
@@ -33,12 +33,15 @@ func loadKnownFindings(verif string) []KnownFinding {
 	sc.Buffer(make([]byte, 1<<20), 1<<20)
 	for sc.Scan() {
 		l := strings.TrimSpace(sc.Text())
-		if l == "" || strings.HasPrefix(l, "#") {
-			continue
-		}
-		var k KnownFinding
-		if json.Unmarshal([]byte(l), &k) == nil {
-			out = append(out, k)
+		switch {
+		case strings.HasPrefix(l, "open:"):
+			var k KnownFinding
+			if json.Unmarshal([]byte(strings.TrimSpace(l[5:])), &k) == nil {
+				k.Status = "open"
+				out = append(out, k)
+			}
+		case strings.HasPrefix(l, "fixed:"):
+			out = append(out, KnownFinding{Status: "fixed", What: strings.TrimSpace(l[6:])})
 		}
 	}
 	return out
@@ -111,6 +114,8 @@ func loadBaseline(verif, prop string) map[string]bool {
 }
 
 type checkRun struct {
+	eng      *Engine
+	targets  map[string]target
 	prop     string
 	results  []*FuncResult
 	wall     float64
@@ -128,6 +133,8 @@ func runProperty(repo, verif, prop string, timeoutMs int, thorough bool) *checkR
 		cr.wall = time.Since(start).Seconds()
 		return cr
 	}
+	cr.eng = eng
+	cr.targets = map[string]target{}
 	cr.specErrs = eng.cs.Errors
 	cr.stale = eng.staleContracts()
 	ts := eng.selectTargets(prop)
@@ -139,6 +146,7 @@ func runProperty(repo, verif, prop string, timeoutMs int, thorough bool) *checkR
 	// VC generation is not thread-safe w.r.t. the shared engine caches: generate sequentially, solve in parallel.
 	vcs := make([]*VC, len(ts))
 	for i, t := range ts {
+		cr.targets[funcDisplay(t.fn)] = t
 		g0 := time.Now()
 		fr := &FuncResult{Fn: funcDisplay(t.fn), Key: funcKey(t.fn), Props: t.ct.Props}
 		fr.NClauses = len(t.ct.Requires) + len(t.ct.Ensures)
@@ -273,7 +281,10 @@ func cmdCheck(repo, verif, prop, tier string, timeoutMs int, verbose bool) int {
 			}
 			body := fmt.Sprintf("obligation: %s\nproperty:   %s\nkind:       %s\nwhere:      %s\nclause/src: %s\nstatus:     %s (last solver: %s)\nhistory:    %s\nquery file: %s\n\nThe verifier could not discharge this obligation from the current source of /repo.\n%s\n",
 				o.Name, prop, o.Kind, o.Pos, o.Src, o.Status, o.Solver, was, fr.SMTFile, o.Model)
-			rp := eng_replay(repo, verif, prop, fr, o)
+			rp := replayResult{false, "no-failing-input-found: replay not attempted"}
+			if t, ok := cr.targets[fr.Fn]; ok {
+				rp = cr.eng.replayObligation(t, o.Name, o.Kind, verif, prop)
+			}
 			if rp.reproduced {
 				body += "\nREPLAY: reproduced on the real code\n" + rp.text
 				p := filepath.Join(replayDir, sanitize(o.Name)+".txt")
@@ -323,11 +334,6 @@ func cmdCheck(repo, verif, prop, tier string, timeoutMs int, verbose bool) int {
 type replayResult struct {
 	reproduced bool
 	text       string
-}
-
-// eng_replay is replaced by replay.go once a recipe exists for the function.
-var eng_replay = func(repo, verif, prop string, fr *FuncResult, o *Obligation) replayResult {
-	return replayResult{false, "no-failing-input-found: no replay recipe for this function / the solver returned no model."}
 }
 
 func writeEvidence(verif, prop, tier string, seed int, cr *checkRun, knownHit []string, violations int, counts map[string]int) {
